@@ -124,7 +124,11 @@ int main(int argc, char** argv) {
             e.rings.push_back({{x0, y0}, {x1, y0}, {x1, y1}, {x0, y1}, {x0, y0}}); A.container = 0; A.elems.push_back(e); out.count("A_rectangle"); }
         else A = gen.geom(3, true, true);
         gen.setPartner(A, r.chance(80) ? 55 : 0);
-        GGeom B = r.chance(4) ? A : gen.geom(3, true, true);
+        GGeom B;
+        int mode = (int) r.below(100);
+        if (mode < 4) B = A;
+        else if (mode < 10 && gen.holeSwallower(A, B)) {}
+        else { if (mode < 22) gen.setPartnerInterior(A); B = gen.geom(3, true, true); }
         if (!wantRect && r.chance(50)) std::swap(A, B);
         // arbitrary-double similarity: rotation (none for rectangle cases half of the time), scale 1e-3..1e9, offset
         DX t; double mag = std::pow(10.0, r.range(-3, 9) + r.unit()); double th = (wantRect || r.chance(25)) ? 0.0 : r.unit() * 6.283185307179586;
